@@ -4,6 +4,7 @@ exactly once, `done` is absorbing, and once the drain loop has observed `waits =
 accepted call is left anywhere.
 -/
 import Rv.Lemmas.PipeLifeTrans
+import Rv.Lemmas.PipeLifeScal
 namespace Rv.PipeLife
 
 def retOf : Option CS → Nat
